@@ -1,4 +1,5 @@
 mod area_builder;
+mod area_green;
 mod area_intern;
 mod gen;
 mod interp;
